@@ -1039,6 +1039,7 @@ Verdict runCase(Choices &c, Ctx &ctx, Which which) {
   }
   ctx.label(k.gram.kind == Gram::JSGF ? "door:jsgf" : k.gram.kind == Gram::FSG ? "door:fsg" : "door:align");
   ctx.labelIf(k.gram.namesVariant, "grammar:names-a-pronunciation-variant");
+  ctx.labelIf(k.gram.confluence, "grammar:rhyming-words-from-two-states-into-one");
   ctx.label("audio:" + k.audioDesc.substr(0, k.audioDesc.find('(')));
   ctx.labelIf(fsa::accepts(k.gram.own, {}, false), "grammar:accepts-empty-sentence");
 
